@@ -43,9 +43,11 @@ def _fn(f: FuncInfo) -> str:
 
 
 class _Eval:
-    def __init__(self, node: ast.FunctionDef, recursive: Dict[str, ast.FunctionDef], trains: str, pairfn: str, kw: Optional[str]):
+    def __init__(self, node: ast.FunctionDef, recursive: Dict[str, ast.FunctionDef], trains: str, pairfn: str, kw: Optional[str],
+                 helpers: Optional[Dict[str, ast.FunctionDef]] = None):
         self.node = node
         self.rec = recursive
+        self.helpers = helpers or {}
         self.trains, self.pairfn, self.kw = trains, pairfn, kw
         self.results: List[Tuple[object, List[tuple], ast.AST]] = []
         self.paths = 0
@@ -100,6 +102,18 @@ class _Eval:
                 return ('sum', (('rec', e.func.id, tuple(args), ast.unparse(e)),))
             if isinstance(e.func, ast.Name) and e.func.id == self.pairfn:
                 return ('sum', (self.leaf(e, env, cenv),))
+            if isinstance(e.func, ast.Name) and e.func.id in getattr(self, 'helpers', {}) and not e.keywords:
+                # a nested helper that is one expression (say the evaluation of a single pair): evaluated in place
+                h = self.helpers[e.func.id]
+                body = [s_ for s_ in h.body if not (isinstance(s_, ast.Expr) and isinstance(s_.value, ast.Constant))]
+                ps = [a.arg for a in h.args.args]
+                if len(body) == 1 and isinstance(body[0], ast.Return) and body[0].value is not None and len(ps) == len(e.args) \
+                        and not h.args.vararg and not h.args.kwarg:
+                    env2 = dict(env)
+                    for p_, a_ in zip(ps, e.args):
+                        env2[p_] = self.ev(a_, env, cenv)
+                    return self.ev(body[0].value, env2, cenv)
+                raise _Undecided(f"nested helper `{e.func.id}` is more than one expression")
             return ('opaque', ast.unparse(e))
         return ('opaque', ast.unparse(e))
 
@@ -316,11 +330,12 @@ def r_pair_sum(ctx, rule: str = 'R06.2', rule_count: str = 'R06.3') -> List[Ob]:
     nested = {n.name: n for n in gp.node.body if isinstance(n, ast.FunctionDef)}
     recursive = {name: n for name, n in nested.items()
                  if any(isinstance(x, ast.Call) and isinstance(x.func, ast.Name) and x.func.id == name for x in ast.walk(n))}
+    plain_helpers = {name: n for name, n in nested.items() if name not in recursive}
     t_h = "_generic_profile_multi: the recursive helper returns the sum of the pair profiles of all pairs of its lists, each exactly once"
     for name, node in recursive.items():
         roots = [a.arg for a in node.args.args]
         try:
-            evr = _Eval(node, recursive, trains, pairfn, kw).run(roots)
+            evr = _Eval(node, recursive, trains, pairfn, kw, plain_helpers).run(roots)
         except _Undecided as e:
             obs.append(inconclusive(rule, f"{name}: every path of the recursive helper can be evaluated", gp.loc(node), str(e), construct=f"{fn}.{name}"))
             continue
@@ -347,7 +362,7 @@ def r_pair_sum(ctx, rule: str = 'R06.2', rule_count: str = 'R06.3') -> List[Ob]:
     # the enclosing function
     t_g = "_generic_profile_multi: the returned profile is the sum over the whole pair list, returned together with the number of pairs"
     try:
-        evg = _Eval(gp.node, recursive, trains, pairfn, kw).run([])
+        evg = _Eval(gp.node, recursive, trains, pairfn, kw, plain_helpers).run([])
     except _Undecided as e:
         obs.append(inconclusive(rule, "_generic_profile_multi: every path can be evaluated", gp.loc(), str(e), construct=fn))
         return obs
